@@ -38,7 +38,7 @@ def setup(ctx):
     U.install_permissive_levels()
 
 
-POOL_SIZE = 19
+POOL_SIZE = 22
 
 
 def plan(tier, seed):
@@ -147,9 +147,38 @@ def build_pool(pseed, ctx):
         o = pipeline.run(r)
         if o.stage == "done":
             members.append({"kind": "sibling:" + attr, "data": o.data})
+    # one sequence mixing a default-matrix picture with a custom-matrix picture (spliced from two encodes of the same
+    # configuration): whatever the custom matrix leaves behind must not reach the default-matrix sequences that follow
+    if (base.get("qm") is None and not base["lossless"] and configs.has_default_matrix(base["wi"], base["wih"], base["d"], base["dh"])):
+        import struct
+
+        b2 = copy.deepcopy(base)
+        b2["pb"] = base["sx"] * base["sy"] * 14  # a tight budget: non-zero quantisation indices
+        rq = copy.deepcopy(b2)
+        rq["qm"] = configs.random_matrix(rng, rq["d"], rq["dh"])
+        ob, oq = pipeline.run(b2), pipeline.run(rq)
+        if ob.stage == "done" and oq.stage == "done":
+            try:
+                ub, uq = vc2util.split_units(ob.data), vc2util.split_units(oq.data)
+                pic = lambda u: u[4] in vc2util.PICTURE_CODES + vc2util.FRAGMENT_CODES
+                last = max(struct.unpack(">I", u[13:17])[0] for u in ub if pic(u))
+                first_q = min(struct.unpack(">I", u[13:17])[0] for u in uq if pic(u))
+                extra = []
+                for u in uq:
+                    if pic(u):
+                        u = bytearray(u)
+                        u[13:17] = struct.pack(">I", (struct.unpack(">I", u[13:17])[0] - first_q + last + 1) & 0xFFFFFFFF)
+                        extra.append(bytes(u))
+                members.append({"kind": "targeted:mixed-matrix", "data": vc2util.join_units(ub[:-1] + extra + ub[-1:])})
+                members.append({"kind": "targeted:default-matrix-tight", "data": ob.data})
+                ctx.count("pools_with_mixed_matrix_member")
+            except Exception:
+                ctx.count("mixed_matrix_member_not_built")
     names = sorted(U.FAMILIES)
     walks = []
-    while len(members) < 11:
+    n_hist = len(members) + 4
+    n_neigh = n_hist + 3
+    while len(members) < n_hist:
         name = rng.choice(names)
         fam, m = c01.fam_model(name)
         hist = c01.guided_walk(rng, fam, m, rng.choice([4, 6, 9]))
@@ -159,7 +188,7 @@ def build_pool(pseed, ctx):
         members.append({"kind": "history:" + name, "data": data})
         walks.append((fam, hist))
     tries = 0
-    while len(members) < 14 and tries < 200:
+    while len(members) < n_neigh and tries < 200:
         tries += 1
         fam, hist = rng.choice(walks)
         h = _framing_intact_neighbour(rng, fam, hist)
@@ -196,6 +225,11 @@ def build_pool(pseed, ctx):
             hist[-1]["off"] = "nextlen"
         data, _ = U.assemble(fam, hist)
         members.append({"kind": "targeted:" + name, "data": data})
+    # a conformant sequence whose very first byte is zero (rejected alone at its parse_info prefix; whatever follows it
+    # or precedes it in a concatenation keeps its own verdict)
+    zp = bytearray(members[0]["data"])
+    zp[0] = 0
+    members.append({"kind": "targeted:zero-first-byte", "data": bytes(zp)})
     # standalone executions
     pool = []
     for mbr in members:
@@ -265,7 +299,7 @@ def run_case(case, ctx):
         for k in kinds:
             ctx.note("member_kinds", k.split(":")[0] + ":" + k.split(":")[1].split("/")[0])
     if ctx.rng.random() < 0.02:
-        ctx.sample({"pool": pseed, "list": case["lists"][0], "kinds": [pool[i]["kind"] for i in case["lists"][0]]})
+        ctx.sample({"pool": pseed, "list": case["lists"][0], "kinds": [pool[i % len(pool)]["kind"] for i in case["lists"][0]]})
 
 
 def _explain(e):
